@@ -76,6 +76,10 @@ def add_targets(E, spec, pid):
         return T.make(mkit)
     E.contracts["nauyaca.utils.url:parse_url"] = Contract("nauyaca.utils.url:parse_url", ensures=[], result=purl_result, raises=["ValueError"])
 
+    # urllib.parse quote/unquote as uninterpreted functions (E7): whatever they compute, it is not assumed to be the identity
+    uq, qq = z3.Function("unquote", S, S), z3.Function("urllib_quote", S, S)
+    M.setdefault("urllib.parse.unquote", lambda ctx, a, k: VStr(uq(ctx.force(a[0]).z)))
+    M.setdefault("urllib.parse.quote", lambda ctx, a, k: VStr(qq(ctx.force(a[0]).z)))
     replace_all = z3.Function("py_replace_all", S, S, S, S)
     if "str.replace" not in M:
         M["str.replace"] = lambda ctx, s_, a, b: VStr(replace_all(s_.z, a.z, b.z))      # uninterpreted: feeds parse_url only
@@ -181,7 +185,8 @@ def add_targets(E, spec, pid):
                   "client_cert": NONE, "client_key": NONE}      # they only select arguments of create_client_context (C20)
         E.sqlite_db_of(ctx)
         try:
-            cl = E.instantiate(ctx, None, VClass(CL), [], kwargs)
+            cl = ctx.alloc(CL, {"__constructed__": True})
+            E.inline_call(ctx, f"{CL}.__init__", [cl], kwargs)      # the real constructor body, whatever contract other modules put on it
         except PyRaise:
             raise Infeasible()          # no client object: nothing to call
         # the client may have been used before (C03/C11 quantify over histories): every mutable container that __init__ created
@@ -207,9 +212,11 @@ def add_targets(E, spec, pid):
         had, old_fp = c0.present(host, port), c0.get("fp", host, port)
         pins_same = z3.And(c1.has == c0.has, c1.fp == c0.fp)
         others_same = c1.same_except(c0, host, port, cols=("fp",), tag="s")
-        P = {"C16": [z3.BoolVal(len(conns) <= 1)], "C13": [], "C03": [], "C11": [], "C18": []}
+        P = {"C16": [z3.BoolVal(len(conns) <= 1)], "C13": [], "C03": [], "C11": [], "C18": [], "C17": []}
         pr = ctx.ghost.get("cproto")
         if pr is not None and pr.cls == GP:
+            u = ctx.force(ctx.getf(pr, "url")) if ctx.getf(pr, "url") is not None else None
+            P["C17"].append(u.z == z3.String("parsed.normalized") if isinstance(u, VStr) else z3.BoolVal(False))
             db = ctx.force(ctx.getf(pr, "decode_body")) if ctx.getf(pr, "decode_body") is not None else None
             P["C18"].append(db.z == z3.Bool("client.decode_body") if isinstance(db, VBool) else z3.BoolVal(False))
         if conns:
@@ -243,12 +250,13 @@ def add_targets(E, spec, pid):
         "C13": "[C13] the transport is closed on every exit after the connection was made; a returned value is the response the protocol resolved",
         "C16": "[C16] at most one connection, to the host and port parse_url reports for the URL",
         "C18": "[C18] the protocol object of a fetch decodes bodies exactly when the client was created with decode_body=True",
+        "C17": "[C17] the request line of a fetch is the normalised form of the URL asked for, character for character (no re-quoting, no decoding)",
     }
 
     def clause_posts(hostf, portf):
         def mkpost(tag):
             return lambda ctx, old, args, outcome: common_post(ctx, old, args, outcome, hostf(), portf())[tag]
-        return [(CLAUSES[t], mkpost(t)) for t in ("C03", "C11", "C13", "C16", "C18")]
+        return [(CLAUSES[t], mkpost(t)) for t in ("C03", "C11", "C13", "C16", "C18", "C17")]
 
     # ---- _get_single ----------------------------------------------------------------------------------------
     def gs_args(ctx):
@@ -281,7 +289,7 @@ def add_targets(E, spec, pid):
     spec.targets += [(f"{CL}._get_single", None), (f"{CL}.upload", None)]
     # the [C16] clause (one connection, to the host/port parse_url reports = the pin key) is part of C03's claim as well:
     # a pin checked for another host than the one connected to protects nothing
-    tags = {"C03": ("[C03]", "[C03,", "[C16]"), "C11": ("[C11]", "requires/C11", "[C11,"), "C13": ("[C13]", "[C13,", "[INV,C13]"), "C18": ("[C18]",)}.get(pid)
+    tags = {"C03": ("[C03]", "[C03,", "[C16]"), "C11": ("[C11]", "requires/C11", "[C11,"), "C13": ("[C13]", "[C13,", "[INV,C13]"), "C18": ("[C18]",), "C17": ("[C17]",)}.get(pid)
     if tags:
         prev = getattr(spec, "keep", None)
         sess = (f"{CL}._get_single/", f"{CL}.upload/")
